@@ -847,3 +847,119 @@ theorem castFeatures_eq (s : Disc) (x0 : Frame) (h : s.casting.all (fun c => c.2
   rfl
 
 end FrameLemmas
+
+namespace FrameLemmas
+open Disc
+
+variable {κ : Type} (key : κ → String) (upd : κ → Col → Except Err Col) (miss : κ → Except Err Unit)
+
+/-- **When a phase fails**: some step, applied to the column the phase started with, failed with
+    that error (or found no column and `miss` failed). -/
+theorem phase_err : ∀ (as : List κ) (x : Frame) (e : Err), (as.map key).Nodup →
+    as.foldlM (step key upd miss) x = .error e →
+    ∃ a ∈ as, (∃ c, aget? x (key a) = some c ∧ upd a c = .error e) ∨ (aget? x (key a) = none ∧ miss a = .error e) := by
+  intro as
+  induction as with
+  | nil => intro x e _ h; simp [List.foldlM, pure, Except.pure] at h
+  | cons a0 t ih =>
+    intro x e hnd h
+    simp only [List.map_cons, List.nodup_cons] at hnd
+    simp only [List.foldlM, bind, Except.bind] at h
+    cases h1 : step key upd miss x a0 with
+    | error e1 =>
+      rw [h1] at h
+      simp only [] at h
+      injection h with h
+      subst h
+      refine ⟨a0, List.mem_cons_self, ?_⟩
+      unfold step at h1
+      cases hc : aget? x (key a0) with
+      | none =>
+        rw [hc] at h1
+        simp only [] at h1
+        cases hm : miss a0 with
+        | error e2 => rw [hm] at h1; simp only [Except.map] at h1; injection h1 with h1; subst h1; exact Or.inr ⟨rfl, rfl⟩
+        | ok u => rw [hm] at h1; simp [Except.map] at h1
+      | some c =>
+        rw [hc] at h1
+        simp only [] at h1
+        cases hu : upd a0 c with
+        | error e2 => rw [hu] at h1; simp only [Except.map] at h1; injection h1 with h1; subst h1; exact Or.inl ⟨c, rfl, hu⟩
+        | ok c' => rw [hu] at h1; simp [Except.map] at h1
+    | ok x1 =>
+      rw [h1] at h
+      simp only [] at h
+      obtain ⟨a, ha, hcase⟩ := ih x1 e hnd.2 h
+      have hne : key a ≠ key a0 := fun e' => hnd.1 (List.mem_map.2 ⟨a, ha, e'⟩)
+      have hsame : aget? x1 (key a) = aget? x (key a) := step_other key upd miss x x1 a0 (key a) hne h1
+      rw [hsame] at hcase
+      exact ⟨a, List.mem_cons_of_mem _ ha, hcase⟩
+
+/-- **How `transform` can fail** (after a successful casting): the missing-columns AssertionError,
+    or the update of one feature's column failed — a quantitative feature on its input column, a
+    qualitative feature on its input column, or the missing-value step. -/
+theorem transform_error_cases (s : Disc) (hs : s.Shape) (hdisj : ∀ f ∈ s.qual, f ∉ s.quant)
+    (x0 x : Frame) (hc : s.castFeatures x0 = .ok x) (e : Err) (h : s.transform x0 = .error e) :
+    e = Err.assertion "columns are missing" ∨
+    ((∀ f ∈ s.features, ∃ c, aget? x f = some c) ∧
+    ((∃ f ∈ s.quant, (∃ c, aget? x f = some c ∧ qUpd s f c = .error e) ∨ (aget? x f = none ∧ e = Err.keyError)) ∨
+    (∃ f ∈ s.qual, (∃ c, aget? x f = some c ∧ lUpd s f c = .error e) ∨ (aget? x f = none ∧ e = Err.keyError)) ∨
+    (∃ fd ∈ s.featDropna, (∃ c, nUpd s fd c = .error e) ∨ nMiss s fd = .error e))) := by
+  unfold transform at h
+  rw [hc] at h
+  simp only [Except.bind] at h
+  split at h
+  · injection h with h; exact Or.inl h.symm
+  · right
+    rename_i hm
+    refine ⟨?_, ?_⟩
+    · intro f hf
+      have : (s.features.filter (fun f => (colOf x f).isNone)).isEmpty = true := by simpa using hm
+      rw [List.isEmpty_iff, List.filter_eq_nil_iff] at this
+      have := this f hf
+      cases hx : aget? x f with
+      | none => simp [colOf, hx] at this
+      | some c => exact ⟨c, rfl⟩
+    cases h1 : s.quant.foldlM (quantStep s) x with
+    | error e1 =>
+      rw [h1] at h; simp only [] at h; injection h with h; subst h
+      rw [foldlM_congr _ _ (quantStep_eq s)] at h1
+      obtain ⟨f, hf, hcase⟩ := phase_err id (qUpd s) keyMiss s.quant x e1 (by simpa using hs.quantNodup) h1
+      left
+      refine ⟨f, hf, ?_⟩
+      rcases hcase with ⟨c, hcx, hu⟩ | ⟨hcx, hm⟩
+      · exact Or.inl ⟨c, hcx, hu⟩
+      · refine Or.inr ⟨hcx, ?_⟩
+        simp only [keyMiss] at hm; injection hm with hm; exact hm.symm
+    | ok x1 =>
+      rw [h1] at h
+      simp only [] at h
+      right
+      rw [foldlM_congr _ _ (quantStep_eq s)] at h1
+      cases h2 : s.qual.foldlM (qualStep s) x1 with
+      | error e2 =>
+        rw [h2] at h; simp only [] at h; injection h with h; subst h
+        rw [foldlM_congr _ _ (qualStep_eq s)] at h2
+        obtain ⟨f, hf, hcase⟩ := phase_err id (lUpd s) keyMiss s.qual x1 e2 (by simpa using hs.qualNodup) h2
+        left
+        refine ⟨f, hf, ?_⟩
+        have hsame : aget? x1 f = aget? x f :=
+          phase_other id (qUpd s) keyMiss s.quant x x1 f (fun a ha e' => hdisj f hf (by simpa [id] using e' ▸ ha)) h1
+        simp only [id] at hcase
+        rw [hsame] at hcase
+        rcases hcase with ⟨c, hcx, hu⟩ | ⟨hcx, hm⟩
+        · exact Or.inl ⟨c, hcx, hu⟩
+        · refine Or.inr ⟨hcx, ?_⟩
+          simp only [keyMiss] at hm; injection hm with hm; exact hm.symm
+      | ok x2 =>
+        rw [h2] at h
+        simp only [] at h
+        right
+        rw [foldlM_congr _ _ (nanStep_eq s)] at h
+        obtain ⟨fd, hfd, hcase⟩ := phase_err (·.1) (nUpd s) (nMiss s) s.featDropna x2 e hs.fdNodup h
+        refine ⟨fd, hfd, ?_⟩
+        rcases hcase with ⟨c, _, hu⟩ | ⟨_, hm⟩
+        · exact Or.inl ⟨c, hu⟩
+        · exact Or.inr hm
+
+end FrameLemmas
